@@ -850,12 +850,12 @@ pub fn apply_ex(orig: &WPacket, site: &Site, t: &mut Tape, out_w: &mut Option<WP
                     // validator distinguishes, optionally behind a share prefix) and kept if the specification calls it invalid
                     let mut s = BAD_FILTERS[t.pick(BAD_FILTERS.len())].to_string();
                     if t.flag() {
-                        const LV: [&str; 14] = ["", "+", "#", "a", "a+", "+a", "#a", "a#", "sport", "$share", "$SYS", "\u{e9}", "##", "+#"];
+                        const LV: [&str; 14] = ["", "+", "#", "a", "a+", "+a", "#a", "a#", "sport", "$share", "$SYS", "\u{e9}", "a\0b", "+#"];
                         for _ in 0..4 {
                             let n = 1 + t.pick(5);
                             let mut c = (0..n).map(|_| LV[t.weighted(&[2, 4, 6, 4, 1, 1, 1, 1, 2, 1, 1, 1, 1, 1])]).collect::<Vec<_>>().join("/");
                             if t.chance(1, 4) {
-                                c = format!("$share/g/{}", c);
+                                c = format!("$share/{}/{}", ["g", "g", "g\0h", "\0", "g+", "g#"][t.pick(6)], c);
                             }
                             if !crate::specpred::filter_valid(&c) {
                                 s = c;
